@@ -9,7 +9,10 @@ PROPS = {
                       "Platform values; every arithmetic op, index, unwrap, push and (debug_)assert is an obligation",
         "level_note": "trusted: Verus+z3, extraction rules, std intrinsics (rotate_right, from/to_le_bytes), SIMD "
                       "kernels assumed (C05)",
-        "units": {"quick": [v("tree"), v("tree_lemmas")], "thorough": []},
+        "units": {"quick": [v("tree"), v("tree_lemmas")],
+                  "thorough": [v("tree", "B"), v("tree", "C"), v("tree", "D"), v("tree", "A", join_order="rl"),
+                               k("std_specs"), k("prelude_array_ref"), k("counter_words"), k("largest_power_of_two_leq"),
+                               k("left_subtree_len")]},
         "explanation": "Verus discharges, for all inputs, the postconditions that tie the real (mechanically "
                        "extracted) functions of src/lib.rs, src/portable.rs, src/platform.rs, src/hazmat.rs to a "
                        "BLAKE3 specification written as spec functions from the paper; every arithmetic operation, "
